@@ -7,11 +7,12 @@ set -u
 WT=/tmp/seedwt_$$
 cd /repo && git worktree add -q $WT HEAD || exit 2
 export CARGO_TARGET_DIR=/tmp/seedwt_target CARGO_NET_OFFLINE=true
-cd $WT && cp $SRC/demo.rs lexpr/tests/seed_demo.rs
-base=$(cargo test --offline -p lexpr --test seed_demo 2>&1 | grep -E "^test result" | head -1)
+DC=$(python3 -c "import json,sys;print(json.load(open(sys.argv[1])).get('demo_crate','lexpr'))" $SRC/meta.json 2>/dev/null || echo lexpr)
+cd $WT && cp $SRC/demo.rs $DC/tests/seed_demo.rs
+base=$(cargo test --offline -p $DC --test seed_demo 2>&1 | grep -E "^test result" | head -1)
 git apply $SRC/patch.diff || { echo "patch does not apply"; cd /repo; git worktree remove --force $WT; exit 2; }
-mut=$(cargo test --offline -p lexpr --test seed_demo 2>&1 | grep -E "^test result" | head -1)
-rm lexpr/tests/seed_demo.rs
+mut=$(cargo test --offline -p $DC --test seed_demo 2>&1 | grep -E "^test result" | head -1)
+rm $DC/tests/seed_demo.rs
 suite=$(cargo test --workspace --offline 2>&1 | grep -E "^test result" | awk '{p+=$4; f+=$6} END {print p" passed, "f" failed"}')
 cd /repo; git worktree remove --force $WT
 echo "demo without patch: $base"; echo "demo with patch:    $mut"; echo "suite with patch:   $suite"
